@@ -289,6 +289,8 @@ class H:
         self.nv = 0
         self.round = 0
         self.ndecoy = 0
+        self.cctx: dict[str, Any] = {}
+        self.td_callables: dict[str, Any] = {}
         self.block_ended = anyio.Event()
         self.sc_done = anyio.Event()
         self.subspecs: dict[str, dict] = {sp["sid"]: sp for _p, _ph, sp in all_subs(plan)}
@@ -392,6 +394,10 @@ class H:
                 continue
             tf = hard.get("tf")
             kw = self.hard_kw[f"{path}.{c['alias']}" if path else c["alias"]]
+            if c.get("fail_init") == "bad_kw":
+                # an option the (closed-signature) component class does not know
+                kw = {**kw, "zz_unknown_option": 1}
+                sim.fault("raise_in_constructor")
             if tf == "alias" or tf is None:
                 inst.add_component(c["alias"], **kw)
             else:
@@ -404,7 +410,7 @@ class H:
                     sim.probe("duplicate_alias_refused")
                 else:
                     sim.log("note", what="duplicate_alias_accepted", path=path, alias=c["alias"])
-        if n.get("fail_init"):
+        if n.get("fail_init") and n["fail_init"] != "bad_kw":
             e = FAIL_CLASSES.get(n["fail_init"], SimError)(f"init {path}")
             e.tag = f"F:{path}:creating"  # type: ignore[attr-defined]
             sim.fault("raise_in_constructor")
@@ -414,6 +420,7 @@ class H:
     async def on_phase(self, inst: Any, phase: str) -> None:
         sim = self.sim
         path, n = self.by_cls[type(inst)]
+        self.cctx[path] = current_context()
         sim.log("phase_begin", path=path, phase=phase, same=inst is self.instances.get(path), round=self.round)
         how = "done"
         try:
@@ -451,6 +458,13 @@ class H:
                 sim.log("flood", path=path, n=a[1]["n"])
             elif op == "td":
                 self.td(a[1], path)
+            elif op == "td_again":
+                # the very same callable once more (one release() per lease): two
+                # registrations, two calls, each in its own LIFO slot
+                cb_ = self.td_callables.get(a[1])
+                if cb_ is not None:
+                    add_teardown_callback(cb_)
+                    sim.log("td_reg", td=a[1], path=path, late=False)
             elif op == "svc":
                 await self.svc(a[1], path)
             elif op == "childctx":
@@ -615,6 +629,10 @@ class H:
                 v = await _injected_lookup(t, name, bool(spec.get("opt")))()
             elif spec.get("opt"):
                 v = await get_resource(t, name, optional=True)
+            elif spec.get("via") == "parent_ctx" and path and self.cctx.get(path.rpartition(".")[0]) is not None:
+                # asked through the component context of the parent (which is busy starting
+                # its children right now): start-up is under way, so this waits like any other
+                v = await self.cctx[path.rpartition(".")[0]].get_resource(t, name)
             else:
                 v = await get_resource(t, name)
         except BaseException as e:
@@ -649,6 +667,7 @@ class H:
                 sim.log("td_done", td=tdid)
 
         add_teardown_callback(cb)
+        self.td_callables[tdid] = cb
         sim.log("td_reg", td=tdid, path=path, late=late)
 
     async def svc(self, spec: dict, path: str) -> None:
@@ -793,6 +812,11 @@ def build_config(plan: dict) -> tuple[Any, dict]:
     sub = ext_tree(tree)
     if sub or plan.get("empty_components"):
         cfg["components"] = sub
+    sh = plan.get("share_ext")
+    if sh and sub.get(sh[0]) is not None and sub.get(sh[0]) == sub.get(sh[1]):
+        # one mapping object configures two components (a re-used defaults dict, a YAML
+        # anchor): equal to the configuration made of two separate, equal mappings
+        sub[sh[1]] = sub[sh[0]]
     bad = plan.get("bad_child_cfg")
     if bad is not None:
         # a child whose configuration is neither None nor a mapping (and falsy at that)
@@ -887,6 +911,7 @@ def make_main(plan: dict):
                     ctx = await outer_stack.enter_async_context(_Logged(real_ctx, sim, rnd))
                     h.real = ctx
                     h.instances = {}
+                    h.cctx = {}
                     h.block_ended = anyio.Event()
                     h.sc_done = anyio.Event()
                     t0 = sim.now()
@@ -1042,7 +1067,15 @@ async def h_post(h: H, sim: Sim, rnd: int) -> None:
                 t = RT[spec["t"]]
                 got = h.real.get_resources(t)
                 fac = bool(spec.get("fac"))
-                present_under = sorted(x for x in got if not x.startswith("dk"))
+                # (names under which *other* components publish the same type are theirs)
+                others = {
+                    final_name(n2, a2[1], ph2)
+                    for _p2, n2 in walk(h.plan["tree"])
+                    for ph2 in ("prepare", "start")
+                    for a2 in n2.get(ph2) or ()
+                    if a2[0] == "pub" and a2[1]["rid"] != spec["rid"] and spec["t"] in (a2[1]["t"], a2[1].get("t2"))
+                }
+                present_under = sorted(x for x in got if not x.startswith("dk") and x not in others)
                 val = None
                 out = "ok"
                 try:
@@ -1293,7 +1326,7 @@ def oracle(sim: Sim, plan: dict) -> list[dict]:
         if fail_plan is not None and fail_plan[1] == "creating":
             # which other constructors ran before the failing one is not specified
             dup = sorted({p for p in seen_paths if seen_paths.count(p) > 1})
-            if dup or fail_plan[0] not in seen_paths or not set(seen_paths) <= set(nodes):
+            if dup or (fail_plan[0] not in seen_paths and nodes[fail_plan[0]].get("fail_init") != "bad_kw") or not set(seen_paths) <= set(nodes):
                 v("C14.tree", "nodes", f"components constructed {sorted(seen_paths)} with a failing constructor at {fail_plan[0]}")
         elif sorted(seen_paths) != sorted(expect_created):
             extra = sorted(set(seen_paths) - set(expect_created))
@@ -1486,6 +1519,8 @@ def oracle(sim: Sim, plan: dict) -> list[dict]:
                 want_cause = f"F:{fpath}:{tagphase}"
                 if any(r[4] == "fail" and r[5].get("tag") == "ResourceConflict" for r in tr):
                     want_cause = "ResourceConflict"
+                if n.get("fail_init") == "bad_kw":
+                    want_cause = "TypeError"  # raised by the constructor call itself
                 if d["cause"] != want_cause:
                     v("C07.error", "cause", f"ComponentStartError.__cause__ is {d['cause']}, expected the injected exception {want_cause}")
                 if exact_time and model["fail"] is not None and abs((d["t"] - t0) - model["fail"]) > 1e-9:
@@ -1721,7 +1756,7 @@ def oracle(sim: Sim, plan: dict) -> list[dict]:
                 se = next((r for r in tr if r[4] == "svc_end" and r[5]["svc"] == sr[5]["svc"]), None)
                 if se is None:
                     continue
-                for tdr in [r for r in tr if r[4] == "td_reg"]:
+                for tdr in [r for r in tr if r[4] == "td_reg" and regs.count(r[5]["td"]) == 1]:
                     run = next((r for r in tr if r[4] == "td_run" and r[5]["td"] == tdr[5]["td"]), None)
                     if run is None:
                         continue
@@ -1758,6 +1793,7 @@ def oracle(sim: Sim, plan: dict) -> list[dict]:
             if r[4] == "childctx":
                 if r[5].get("sig_own") is False:
                     v("C11.identity", "component_context_shares_signal", f"the component context of {r[5]['path']} and the calling context share one bound resource_added signal")
+                    v("C18.events", "component_context_shares_signal", f"a listener on the component context of {r[5]['path']} would hear every publication made on the calling context: the two share one bound resource_added signal")
                 if r[5].get("sig_cls_level") not in (None, "UnboundSignal"):
                     v("C11.unbound", "component_context_class", f"ComponentContext.resource_added.dispatch() on the class gave {r[5]['sig_cls_level']}, expected UnboundSignal")
             if r[4] == "td_run" and str(r[5]["td"]).startswith("rogue_"):
@@ -2010,6 +2046,8 @@ class G:
                         w["opt"] = True
                     if rng.random() < 0.15:
                         w["via"] = "inject"
+                    elif rng.random() < 0.1 and "opt" not in w:
+                        w["via"] = "parent_ctx"
                     elif self.prop in ("C06", "C05") and isfac and fdur and rng.random() < (0.4 if self.prop == "C06" else 0.25):
                         # this waiter loses patience while the factory is still working
                         w["giveup"] = rng.choice((0.25, 0.5, 1.0))
@@ -2069,6 +2107,11 @@ class G:
                         self.ntd += 1
                         tdspec["nested"] = {"id": f"cb{self.ntd}", "async": rng.random() < 0.5, "dur": rng.choice(DTS[:3])}
                     acts.append(["td", tdspec])
+                    if "nested" not in tdspec and rng.random() < 0.15:
+                        if rng.random() < 0.5:
+                            self.ntd += 1
+                            acts.append(["td", {"id": f"cb{self.ntd}", "async": False, "dur": 0.0}])
+                        acts.append(["td_again", tdspec["id"]])
                 elif r < 0.9 and self.nsvc < 3:
                     self.nsvc += 1
                     sv: dict[str, Any] = {"name": f"s{self.nsvc}", "delay": rng.choice((0.0, 0.0, 0.5))}
@@ -2125,6 +2168,35 @@ def _forward_waits(g: "G", tree: dict, rng: random.Random) -> None:
         n[ph].insert(pos, w)
         if model_timeline({"tree": tree})["finish"] is None:
             n[ph].remove(w)
+
+
+def _alias_trap(g: "G", tree: dict, rng: random.Random) -> None:
+    """A `kind/name` component publishes T under the default name in start() (so it is
+    registered as (T, name)) and then asks for (T, "default"), which *another* component
+    publishes: it must wait for - and get - that other object."""
+    nodes = list(walk(tree))
+    cands = []
+    for path, n in nodes:
+        if "/" not in n.get("alias", "") or n.get("start") is None:
+            continue
+        for i, a in enumerate(n["start"]):
+            if a[0] == "pub" and a[1].get("name", "default") == "default" and not a[1].get("fac") and a[1].get("t2") is None:
+                cands.append((path, n, i, a[1]))
+    if not cands:
+        return
+    path, n, i, spec = rng.choice(cands)
+    others = [(p, m, ph) for p, m in nodes if p != path for ph in ("prepare", "start") if m.get(ph) is not None and (ph == "prepare" or "/" not in m.get("alias", ""))]
+    if not others:
+        return
+    p2, m2, ph2 = rng.choice(others)
+    g.nw += 1
+    pub2 = ["pub", {"rid": f"r{spec['rid'][1:]}x", "t": spec["t"], "name": "default"}]
+    w = ["wait", {"wid": f"w{g.nw}", "t": spec["t"], "name": "default"}]
+    m2[ph2].insert(rng.randint(0, len(m2[ph2])), pub2)
+    n["start"].insert(i + 1, w)
+    if model_timeline({"tree": tree})["finish"] is None:
+        m2[ph2].remove(pub2)
+        n["start"].remove(w)
 
 
 def _wide_tree(g: "G", rng: random.Random, fail: bool = False) -> dict:
@@ -2279,7 +2351,21 @@ def gen(rng: random.Random, tier: str, prop: str) -> dict:
     tree = g.skeleton(0, "")
     tree["root_kw"] = rkw(rng)
     tree["root_tf"] = pick(rng, {"class": 3, "ref": 1, "ep": 1})
+    share_ext = None
+    leaves_ = [c for c in tree["children"] if not c["children"]]
+    if prop == "C14" and len(leaves_) >= 2 and rng.random() < 0.08:
+        # two config-only children (type given by the alias) configured by ONE mapping object
+        ca, cb_ = rng.sample(leaves_, 2)
+        kw_ = rkw(rng)
+        for c_ in (ca, cb_):
+            c_["hard"] = None
+            c_["ext"] = {"tf": None, "kw": copy.deepcopy(kw_)}
+            c_["alias"] = "v" + node_cls(c_).__name__.lower()
+            c_.pop("rb", None)
+        share_ext = [ca["alias"], cb_["alias"]]
     g.fill(tree)
+    if prop in ("C06", "C14") and rng.random() < 0.12:
+        _alias_trap(g, tree, rng)
     if prop in ("C06", "C05") and rng.random() < (0.7 if prop == "C06" else 0.3):
         _forward_waits(g, tree, rng)
     plan: dict[str, Any] = {
@@ -2290,6 +2376,8 @@ def gen(rng: random.Random, tier: str, prop: str) -> dict:
         "sched": {"policy": rng.choice(("uniform", "coin", "prio", "fifo")), "seed": rng.getrandbits(32)},
         "tree": tree,
     }
+    if share_ext:
+        plan["share_ext"] = share_ext
     if rng.random() < 0.3:
         plan["nest"] = True
     nodes = list(walk(tree))
@@ -2305,6 +2393,8 @@ def gen(rng: random.Random, tier: str, prop: str) -> dict:
             cls = "SimTimeout"
         if ph == "creating":
             n["fail_init"] = cls
+            if path and n.get("hard") is not None and n["slot"] % 6 == 2 and rng.random() < 0.6:
+                n["fail_init"] = "bad_kw"
         else:
             acts = n[ph]
             pos = rng.randint(0, len(acts))
